@@ -18,6 +18,8 @@ for f in $(find $SEED/demo -name '*.go'); do
     dcmi|dcmi_test) d=pkg/dcmi ;;
     transport|transport_test) d=internal/pkg/transport ;;
     layerexts*) d=pkg/layerexts ;;
+    complement|complement_test) d=internal/pkg/complement ;;
+    bcd|bcd_test) d=internal/pkg/bcd ;;
     *) d=seeddemo_$p; mkdir -p $d ;;
   esac
   cp $f $d/; placed="$placed $d/$(basename $f)"
